@@ -183,6 +183,18 @@ def make(i, base_seed, tier, lite_tx=False, lite_rx=False):
             if k_ and ops[k_ - 1]["op"] == "blackout" and ops[k_ - 1]["on"]:
                 continue
             ops.insert(k_, {"op": "reenter"})
+    if xr.random() < 0.2:
+        # role excursions between calls: the transmitter listens for a while and comes back (only pipes 1-5 / nothing open for RX)
+        for k_ in sorted(xr.sample(range(len(ops) + 1), min(len(ops) + 1, xr.randint(1, 2))), reverse=True):
+            if k_ and ops[k_ - 1]["op"] == "blackout" and ops[k_ - 1]["on"]:
+                continue
+            ops.insert(k_, {"op": "listen_excursion", "rx1": xr.random() < 0.5})
+    if lite_tx and xr.random() < 0.2:
+        # rf24_lite wakes a sleeping radio by itself when it transmits (its write() switches to TX mode, power included)
+        # (only right before a send(): resend() re-uses the payload in the FIFO and does not go through write())
+        sends = [k_ for k_, o in enumerate(ops) if o["op"] in ("send", "sendlist")]
+        if sends:
+            ops.insert(xr.choice(sends), {"op": "power_off"})
     if xr.random() < 0.15:
         # a very slow bus (interpreted MCU, bit-banged SPI): one transaction outlasts a re-transmission and its ACK
         scn["tx_knobs"] = dict(scn["tx_knobs"], spi_overhead_us=xr.choice([800, 1500]), spi_jitter_us=xr.choice([0, 200]))
@@ -253,10 +265,20 @@ def _run(scn, w, res):
         per = 130 * US + (1 + arc) * (air + ard_eff + 10 * US)
         return ncyc * per + per + 120 * _spi_max(mcu) + 2 * MS
 
+    state_deaf = [sim.counters.get("ack_not_on_pipe0", 0)]
+
     def check_call(name, payloads, ret, t0, c0, a0, fr, so, is_list, resend_of=None, na=False):
         nonlocal failed
         cycles = rt.cycles[c0:]
         pkts = [t for t in w.air.trace[a0:] if t["src"] == "T" and not t["ack"]]
+        # ---- "acknowledged by the peer": an ACK that was on the air, inside the window, and that the transmitter's radio turned down
+        # because the driver had left pipe 0 closed or on another address is an acknowledgement all the same
+        n_deaf = sim.counters.get("ack_not_on_pipe0", 0)
+        if n_deaf > state_deaf[0]:
+            state_deaf[0] = n_deaf
+            res.add("truth", {"kind": "peer_ack_not_heard", "op": name},
+                    "%s returned %r; the peer's acknowledgement was on the air in time but the transmitter's radio was not listening for it on pipe 0 "
+                    "(EN_RXADDR=0x%02X, RX_ADDR_P0=%s, TX_ADDR=%s)" % (name, ret, rt.r[2], bytes(rt.a[0x0A]).hex(), bytes(rt.a[0x10]).hex()))
         # ---- the call must not return while the radio is still working on the payload
         if rt.txing:
             res.add("truth", {"kind": "returned_while_transmitting", "op": name},
@@ -350,6 +372,20 @@ def _run(scn, w, res):
             continue
         if op["op"] == "blackout":
             w.air.blackout = bool(op["on"])
+            continue
+        if op["op"] == "listen_excursion":
+            sim.log("call", "T", "listen_excursion")
+            if op.get("rx1"):
+                tx.open_rx_pipe(1, b"\x5a\x5a\x5a\x5a\x5a"[: cfg["aw"]])
+            tx.listen = True
+            sim.advance(int(0.7 * MS))
+            tx.listen = False
+            sim.count("listen_excursion")
+            continue
+        if op["op"] == "power_off":
+            if lite_tx and not w.air.blackout:
+                tx.power = False
+                sim.count("lite_powered_down_before_send")
             continue
         if op["op"] == "reenter":
             sim.log("call", "T", "reenter")
